@@ -13,6 +13,7 @@ pub enum CR {
     Terms { buckets: Vec<(i64, u64, Vec<CR>)>, other: u64, err: Option<u64> },
     List(Vec<(i64, u64, Vec<CR>)>),
     Filter(u64, Vec<CR>),
+    Comp(Vec<(Vec<i64>, u64, Vec<CR>)>),
 }
 
 fn num_to_code(f: Fd, x: f64) -> Result<i64, String> {
@@ -66,8 +67,13 @@ pub fn canon_opt(nodes: &[Node], obj: &Value, no_segments: bool) -> Result<Vec<C
         let cr = match &n.agg {
             Agg::Metric { kind, .. } => match kind {
                 MK::Percentiles => {
-                    let vals = v["values"].as_object().ok_or("percentiles without values")?;
-                    let mut l: Vec<(String, f64)> = vals.iter().map(|(k, x)| (k.clone(), x.as_f64().unwrap_or(f64::NAN))).collect();
+                    let mut l: Vec<(String, f64)> = if n.opt.keyed {
+                        let vals = v["values"].as_object().ok_or("keyed percentiles without a values object")?;
+                        vals.iter().map(|(k, x)| (k.clone(), x.as_f64().unwrap_or(f64::NAN))).collect()
+                    } else {
+                        let vals = v["values"].as_array().ok_or("percentiles (keyed = false) without a values array")?;
+                        vals.iter().map(|e| (e["key"].as_f64().unwrap_or(f64::NAN).to_string(), e["value"].as_f64().unwrap_or(f64::NAN))).collect()
+                    };
                     l.sort_by(|a, b| a.0.parse::<f64>().unwrap().partial_cmp(&b.0.parse::<f64>().unwrap()).unwrap());
                     CR::Pct(l)
                 }
@@ -104,7 +110,16 @@ pub fn canon_opt(nodes: &[Node], obj: &Value, no_segments: bool) -> Result<Vec<C
                 CR::Terms { buckets, other: v["sum_other_doc_count"].as_u64().ok_or("sum_other_doc_count")?, err: v["doc_count_error_upper_bound"].as_u64() }
             }
             Agg::Hist { field, interval, offset, .. } => {
-                let bs = v["buckets"].as_array().ok_or("histogram without buckets")?;
+                let owned: Vec<Value>;
+                let bs: &Vec<Value> = if n.opt.keyed {
+                    // keyed output: an object keyed by the bucket key; order = numeric key order
+                    let m = v["buckets"].as_object().ok_or("keyed histogram without a buckets object")?;
+                    for (k, b) in m { if b["key"].as_f64().map(|x| x.to_string()) != Some(k.clone()) { return Err(format!("keyed histogram: entry {k:?} holds key {}", b["key"])); } }
+                    let mut l: Vec<Value> = m.values().cloned().collect();
+                    l.sort_by(|a, b| a["key"].as_f64().unwrap_or(0.0).total_cmp(&b["key"].as_f64().unwrap_or(0.0)));
+                    owned = l;
+                    &owned
+                } else { v["buckets"].as_array().ok_or("histogram without buckets")? };
                 let mut buckets = vec![];
                 for b in bs {
                     let key = b["key"].as_f64().ok_or("histogram key")?;
@@ -120,7 +135,15 @@ pub fn canon_opt(nodes: &[Node], obj: &Value, no_segments: bool) -> Result<Vec<C
                 CR::List(buckets)
             }
             Agg::Range { field, ranges } => {
-                let bs = v["buckets"].as_array().ok_or("range without buckets")?;
+                let owned: Vec<Value>;
+                let bs: &Vec<Value> = if n.opt.keyed {
+                    let m = v["buckets"].as_object().ok_or("keyed range without a buckets object")?;
+                    for (k, b) in m { if b["key"].as_str() != Some(k.as_str()) { return Err(format!("keyed range: entry {k:?} holds key {}", b["key"])); } }
+                    let mut l: Vec<Value> = m.values().cloned().collect();
+                    l.sort_by(|a, b| a["from"].as_f64().unwrap_or(f64::MIN).total_cmp(&b["from"].as_f64().unwrap_or(f64::MIN)));
+                    owned = l;
+                    &owned
+                } else { v["buckets"].as_array().ok_or("range without buckets")? };
                 let cuts = range_cuts(*field, ranges);
                 let mut buckets = vec![];
                 for (i, b) in bs.iter().enumerate() {
@@ -132,6 +155,35 @@ pub fn canon_opt(nodes: &[Node], obj: &Value, no_segments: bool) -> Result<Vec<C
                     buckets.push((i as i64, b["doc_count"].as_u64().ok_or("doc_count")?, subs_of(n, b, no_segments)?));
                 }
                 CR::List(buckets)
+            }
+            Agg::Composite { sources, .. } => {
+                let bs = v["buckets"].as_array().ok_or("composite without buckets")?;
+                let key_of = |kv: &Value| -> Result<Vec<i64>, String> {
+                    sources.iter().map(|s| {
+                        let x = &kv[&s.name];
+                        if s.field.is_str() {
+                            let t = x.as_str().ok_or(format!("composite key {} is not a string: {x}", s.name))?;
+                            universe(s.field).iter().position(|u| u == t).map(|p| p as i64).ok_or(format!("unknown composite key {t:?}"))
+                        } else {
+                            num_to_code(s.field, x.as_f64().ok_or(format!("composite key {} is not a number: {x}", s.name))?)
+                        }
+                    }).collect()
+                };
+                let mut buckets = vec![];
+                for b in bs { buckets.push((key_of(&b["key"])?, b["doc_count"].as_u64().ok_or("doc_count")?, subs_of(n, b, no_segments)?)); }
+                if let Some(last) = buckets.last() {
+                    // after_key values are "<type>:<value>" strings
+                    if let Some(ak) = v["after_key"].as_object() {
+                        let mut plain = serde_json::Map::new();
+                        for s in sources.iter() {
+                            let raw = ak.get(&s.name).and_then(|x| x.as_str()).ok_or(format!("after_key without {}", s.name))?;
+                            let (ty, val) = raw.split_once(':').ok_or(format!("after_key value {raw:?}"))?;
+                            plain.insert(s.name.clone(), if ty == "str" { json!(val) } else { json!(val.parse::<f64>().map_err(|_| format!("after_key value {raw:?}"))?) });
+                        }
+                        if key_of(&Value::Object(plain))? != last.0 { return Err(format!("composite after_key {} is not the last bucket's key", v["after_key"])); }
+                    }
+                }
+                CR::Comp(buckets)
             }
             Agg::Filter { .. } => CR::Filter(v["doc_count"].as_u64().ok_or("filter doc_count")?, subs_of(n, v, no_segments)?),
         };
@@ -179,6 +231,9 @@ pub struct CmpCtx {
     pub may_truncate: Vec<String>,
     /// histogram / range nodes at which (in lenient mode) only keys and counts are compared
     pub skip_subs_at: Vec<String>,
+    /// attribution mode only: an empty composite page is accepted (see the known finding
+    /// `C14:composite-lost-when-merged-into-empty-from-req`)
+    pub lenient_empty_composite: bool,
     pub notes: Vec<String>,
 }
 
@@ -274,13 +329,23 @@ fn cmp_one(n: &Node, real: &CR, exp: &SR, cx: &mut CmpCtx) -> Result<(), (String
             let _ = numeric;
             r.map_err(here)
         }
+        (CR::Comp(r), SR::Comp { .. }) if r.is_empty() && cx.lenient_empty_composite => Ok(()),
+        (CR::Comp(r), SR::Comp { all, size }) => {
+            let shown = &all[..(*size).min(all.len())];
+            let ks = |l: &[(Vec<i64>, u64, Vec<CR>)]| l.iter().map(|b| (b.0.clone(), b.1)).collect::<Vec<_>>();
+            let es: Vec<(Vec<i64>, u64)> = shown.iter().map(|b| (b.0.clone(), b.1)).collect();
+            if ks(r) != es { return Err(here(format!("composite buckets {:?}, expected {:?}", ks(r), es))); }
+            if cx.skip_subs_at.contains(&n.name) { return Ok(()); }
+            for (x, y) in r.iter().zip(shown) { compare(&n.subs, &x.2, &y.2, cx).map_err(|(w, m)| (format!("[{:?}]>{}", x.0, w), m))?; }
+            Ok(())
+        }
         (CR::Filter(rc, rs), SR::Filter(ec, es)) => {
             if rc != ec { return Err(here(format!("filter doc_count {rc}, expected {ec}"))); }
             compare(&n.subs, rs, es, cx)
         }
         (CR::List(r), SR::List(_, true)) => if r.is_empty() { Ok(()) } else { Err(here(format!("range that no segment instantiated has {} buckets", r.len()))) },
         (CR::List(r), SR::List(e, false)) => cmp_buckets(n, r, e, cx),
-        (CR::Terms { buckets, other, err }, SR::Terms { all, size, order, .. }) => {
+        (CR::Terms { buckets, other, err }, SR::Terms { all, size, order, subkey, .. }) => {
             let total: u64 = all.iter().map(|b| b.1).sum();
             if cx.may_truncate.contains(&n.name) {
                 // documented approximation: only the bounds are promised
@@ -290,7 +355,7 @@ fn cmp_one(n: &Node, real: &CR, exp: &SR, cx: &mut CmpCtx) -> Result<(), (String
                 for b in buckets {
                     let truth = all.iter().find(|x| x.0 == b.0).map(|x| x.1);
                     match truth {
-                        Some(t) if b.1 <= t && (*order != TOrd::CountDesc || t <= b.1 + e) => {}
+                        Some(t) if b.1 <= t && (*order != TOrd::CountDesc || subkey.is_some() || t <= b.1 + e) => {}
                         None if mdc > 1 => {}
                         _ => return Err(here(format!("terms with segment truncation: bucket {} has count {} but the true count is {truth:?} (doc_count_error_upper_bound {e})", b.0, b.1))),
                     }
@@ -304,8 +369,12 @@ fn cmp_one(n: &Node, real: &CR, exp: &SR, cx: &mut CmpCtx) -> Result<(), (String
             // ties of `_count` are unspecified: order each tie group of the expectation as the
             // real result did, then compare strictly
             let mut sorted = all.clone();
-            if matches!(order, TOrd::CountDesc | TOrd::CountAsc) {
-                let pos = |k: i64| buckets.iter().position(|b| b.0 == k).unwrap_or(usize::MAX);
+            let pos = |k: i64| buckets.iter().position(|b| b.0 == k).unwrap_or(usize::MAX);
+            if let Some((vals, asc)) = subkey {
+                let mut keyed: Vec<(f64, (i64, u64, Vec<SR>))> = vals.iter().cloned().zip(all.iter().cloned()).collect();
+                keyed.sort_by(|a, b| (if *asc { a.0.total_cmp(&b.0) } else { b.0.total_cmp(&a.0) }).then(pos(a.1 .0).cmp(&pos(b.1 .0))).then(a.1 .0.cmp(&b.1 .0)));
+                sorted = keyed.into_iter().map(|x| x.1).collect();
+            } else if matches!(order, TOrd::CountDesc | TOrd::CountAsc) {
                 sorted.sort_by(|a, b| {
                     let c = if *order == TOrd::CountDesc { b.1.cmp(&a.1) } else { a.1.cmp(&b.1) };
                     c.then(pos(a.0).cmp(&pos(b.0))).then(a.0.cmp(&b.0))
@@ -329,13 +398,16 @@ pub fn normalise_ties(nodes: &[Node], crs: &mut [CR]) {
             CR::Terms { buckets, .. } => {
                 let by_count = matches!(&n.agg, Agg::Terms { order, .. } if matches!(order, None | Some(TOrd::CountDesc) | Some(TOrd::CountAsc)));
                 let asc = matches!(&n.agg, Agg::Terms { order: Some(TOrd::CountAsc), .. });
-                if by_count {
+                if n.opt.sub_order.is_some() {
+                    buckets.sort_by(|a, b| a.0.cmp(&b.0));
+                } else if by_count {
                     buckets.sort_by(|a, b| (if asc { a.1.cmp(&b.1) } else { b.1.cmp(&a.1) }).then(a.0.cmp(&b.0)));
                 }
                 for b in buckets.iter_mut() { normalise_ties(&n.subs, &mut b.2); }
             }
             CR::List(bs) => for b in bs.iter_mut() { normalise_ties(&n.subs, &mut b.2); },
             CR::Filter(_, s) => normalise_ties(&n.subs, s),
+            CR::Comp(bs) => for b in bs.iter_mut() { normalise_ties(&n.subs, &mut b.2); },
             _ => {}
         }
     }
@@ -370,6 +442,12 @@ pub fn same_result(a: &[CR], b: &[CR]) -> Result<(), String> {
                 same_buckets(b1, b2)?;
             }
             (CR::List(b1), CR::List(b2)) => same_buckets(b1, b2)?,
+            (CR::Comp(b1), CR::Comp(b2)) => {
+                let k1: Vec<(Vec<i64>, u64)> = b1.iter().map(|x| (x.0.clone(), x.1)).collect();
+                let k2: Vec<(Vec<i64>, u64)> = b2.iter().map(|x| (x.0.clone(), x.1)).collect();
+                if k1 != k2 { return Err(format!("composite buckets {k1:?} vs {k2:?}")); }
+                for (x, y) in b1.iter().zip(b2) { same_result(&x.2, &y.2).map_err(|e| format!("[{:?}] {e}", x.0))?; }
+            }
             (CR::Filter(c1, s1), CR::Filter(c2, s2)) => {
                 if c1 != c2 { return Err(format!("filter count {c1} vs {c2}")); }
                 same_result(s1, s2)?;
@@ -401,6 +479,7 @@ pub fn empty_counts_lean(nodes: &[Node]) -> String {
                 format!("L[{}]", (0..=k).map(|i| format!("{i}:0:{}", empty_counts_lean(&n.subs))).collect::<Vec<_>>().join(";"))
             }
             Agg::Filter { .. } => format!("F[0:{}]", empty_counts_lean(&n.subs)),
+            Agg::Composite { .. } => "N".into(),
         }
     }
     match nodes.len() { 0 => "N".into(), 1 => one(&nodes[0]), _ => format!("({})({})", one(&nodes[0]), empty_counts_lean(&nodes[1..])) }
